@@ -390,3 +390,47 @@ WITNESSES += [
          old="            contracted = tuple(sorted(\n                [s for s in itmd.atoms(Index) if s not in target],\n                key=sort_idx_canonical\n            ))\n        else:\n            contracted = (j, k, b, c)",
          new="            contracted = tuple(sorted(itmd.atoms(Index) - set(target), key=lambda s: s.name[0]))\n        else:\n            contracted = (j, k, b, c)"),
 ]
+
+# ---------------------------------------------------------------------- round 4: the consumer of a set iteration lives in a helper
+_SPIN_OLD = ("                missing_contracted = []\n                for idx in missing_indices:\n"
+             "                    spin = target_idx_spin_map.get(idx, None)\n"
+             "                    if spin is not None:  # is a target index -> just add\n"
+             "                        idx_map[target_idx_spin_map[idx]].add(idx)\n"
+             "                    else:  # is a contracted index -> need to try both spins\n"
+             "                        missing_contracted.append(idx)\n")
+_SPIN_ANCHOR = "def integrate_spin(expr: Expr, target_idx: str, target_spin: str) -> Expr:"
+WITNESSES += [
+    # the loop that consumes the indices of the term set moves into a module-level private helper (mirrors refactoring 4E5)
+    dict(id="c19-ok-set-consumer-in-helper", prop="C19", file=SP, expect=None,
+         edits=[(_SPIN_OLD, "                missing_contracted = _assign_target_spins(missing_indices, idx_map, target_idx_spin_map)\n"),
+                (_SPIN_ANCHOR, "def _assign_target_spins(indices, spin_sets, spin_of_target):\n    contracted = []\n    for index in indices:\n"
+                               "        spin = spin_of_target.get(index, None)\n        if spin is not None:\n"
+                               "            spin_sets[spin_of_target[index]].add(index)\n        else:\n"
+                               "            contracted.append(index)\n    return contracted\n\n\n" + _SPIN_ANCHOR)]),
+    # ... a helper that really is order-sensitive: only the first missing contracted index gets both spins
+    dict(id="c19-set-consumer-helper-first", prop="C19", file=SP, expect="R19a",
+         edits=[(_SPIN_OLD, "                missing_contracted = _assign_target_spins(missing_indices, idx_map, target_idx_spin_map)\n"),
+                (_SPIN_ANCHOR, "def _assign_target_spins(indices, spin_sets, spin_of_target):\n    contracted = []\n    for index in indices:\n"
+                               "        spin = spin_of_target.get(index, None)\n        if spin is not None:\n"
+                               "            spin_sets[spin_of_target[index]].add(index)\n        else:\n"
+                               "            contracted.append(index)\n    return contracted[:1]\n\n\n" + _SPIN_ANCHOR)]),
+    # ... a helper that pairs the set order with an ordered list
+    dict(id="c19-set-consumer-helper-zip", prop="C19", file=SP, expect="R19a",
+         edits=[("        term_indices = set(term.idx)\n", "        term_indices = set(term.idx)\n        numbered = _number(term_indices)\n"),
+                (_SPIN_ANCHOR, "def _number(indices):\n    return dict(zip(indices, range(len(indices))))\n\n\n" + _SPIN_ANCHOR),
+                ("        contribution = Expr(0, **expr.assumptions)\n", "        contribution = Expr(numbered[sorted_target[0]] if sorted_target else 0, **expr.assumptions)\n")]),
+]
+
+# ---------------------------------------------------------------------- F50: representative of equivalent terms in simplify
+SI = "simplify.py"
+_F50_NEW = ("    terms = sorted(\n        expr.terms,\n        key=lambda t: str(t.substitute_contracted(return_sympy=True))\n    )\n")
+WITNESSES += [
+    dict(id="c19-simplify-representative-revert", prop="C19", file=SI, expect="R19k", old=_F50_NEW, new="    terms = expr.terms\n"),
+    # sorted by something that still follows the names (the position in Expr.terms breaks the tie first)
+    dict(id="c19-simplify-representative-by-position", prop="C19", file=SI, expect="R19k", old=_F50_NEW,
+         new="    terms = [t for _, t in sorted(enumerate(expr.terms), key=lambda kt: kt[0])]\n"),
+    # the same canonical order established by an in-place sort with a nested key function
+    dict(id="c19-ok-simplify-representative-inplace", prop="C19", file=SI, expect=None, old=_F50_NEW,
+         new="    def lowest_index_form(term):\n        return str(term.substitute_contracted(return_sympy=True))\n\n"
+             "    terms = list(expr.terms)\n    terms.sort(key=lowest_index_form)\n"),
+]
